@@ -557,4 +557,37 @@ Proof.
     + unfold nm. rewrite Hnm. apply opt_eqb_refl.
 Qed.
 
+(* replacing the FIRST child of the list (SupportComplexDataType._set_value with a datatype object:
+   old_child = self.children[0]) is in place whatever the names are *)
+Lemma replace_child_head_spec U B p old new rest :
+  spec (replace_child t p old new)
+       (fun s => K U B s /\ ~ U new /\ cand s new /\ n_list (getn s p) = old :: rest)
+       (fun _ s => K U B s) (K U B).
+Proof.
+  intros s (HK & NU & Hc & Hl). unfold replace_child. cbn [mbind node_of].
+  set (U' := fun d => U d \/ d = new).
+  assert (HK' : K U' B s).
+  { destruct HK as (I & C & D). split; [|split]; auto. intros d [Hd| ->]; auto. }
+  assert (W : forall s', K U' B s' -> K U B s') by (intros s'; apply K_weaken; unfold U'; auto).
+  set (nm := fun d => n_name (getn s d)).
+  assert (Hn : names s nm) by (intros d; reflexivity).
+  destruct (oid_eqb (n_tparent (getn s old)) p) eqn:Et.
+  - rewrite mbind_run.
+    pose proof (remove_child_spec U' B p old _ nm true s (conj HK' (conj eq_refl (conj Hn Et)))) as H.
+    step_with H; [|now apply W]. destruct H as (H1 & _ & _).
+    pose proof (cand_unfold U' B s0 new H1 (or_intror eq_refl)) as Hc1.
+    apply (append_spec U B p new s0). split; [now apply W|]. now apply cand_addable.
+  - cbn [mbind node_of]. rewrite Hl. cbn [index_of]. rewrite Nat.eqb_refl.
+    destruct (ihas (n_name (getn s old)) (n_idx (getn s p))); cbn [negb]; [|exact HK].
+    pose proof (K_Inv _ _ _ HK) as I.
+    rewrite (I_index s I), Hl. cbn [filter]. unfold name_is at 1. rewrite opt_eqb_refl. cbn [index_of]. rewrite Nat.eqb_refl.
+    rewrite mbind_run.
+    pose proof (remove_child_spec U' B p old _ nm false s (conj HK' (conj eq_refl (conj Hn Et)))) as H.
+    step_with H; [|now apply W]. destruct H as (H1 & Hl1 & Hn1).
+    apply (insert_spec U B p 0 new 0 (remove1 old (n_list (getn s p))) nm s0).
+    pose proof (cand_unfold U' B s0 new H1 (or_intror eq_refl)) as Hc1.
+    refine (conj (W _ H1) (conj NU (conj Hc1 (conj Hl1 (conj Hn1 _))))).
+    rewrite Hl. cbn [remove1]. rewrite Nat.eqb_refl. cbn [insert_at filter]. now rewrite opt_eqb_refl.
+Qed.
+
 End Ops.
